@@ -40,7 +40,7 @@ MARK = b'MARKER-AFTER-REPLY'
 
 
 def plan(tier):
-    return [('seeded', 8000 if tier == 'quick' else 350000),
+    return [('seeded', 16000 if tier == 'quick' else 350000),
             ('size_edge', 200 if tier == 'quick' else 4000)]
 
 
